@@ -18,7 +18,7 @@ use tokio::io::{AsyncRead, AsyncReadExt, AsyncWrite, AsyncWriteExt, DuplexStream
 use tokio::sync::mpsc;
 
 #[derive(Default, Debug)]
-pub struct Faults { pub read_err: bool, pub write_err: bool }
+pub struct Faults { pub read_err: bool, pub write_err: bool, pub write_budget: Option<usize> }
 #[derive(Debug)]
 pub struct FaultIo { pub inner: DuplexStream, pub ctl: Arc<Mutex<Faults>> }
 impl AsyncRead for FaultIo {
@@ -30,6 +30,13 @@ impl AsyncRead for FaultIo {
 impl AsyncWrite for FaultIo {
     fn poll_write(mut self: Pin<&mut Self>, cx: &mut Context<'_>, buf: &[u8]) -> Poll<std::io::Result<usize>> {
         if self.ctl.lock().unwrap().write_err { return Poll::Ready(Err(std::io::Error::new(std::io::ErrorKind::BrokenPipe, "injected write error"))); }
+        // a write error after k more bytes: the request is cut at that byte
+        let budget = self.ctl.lock().unwrap().write_budget;
+        if let Some(k) = budget {
+            if k == 0 { return Poll::Ready(Err(std::io::Error::new(std::io::ErrorKind::BrokenPipe, "injected write error (mid-request)"))); }
+            let n = k.min(buf.len());
+            return match Pin::new(&mut self.inner).poll_write(cx, &buf[..n]) { Poll::Ready(Ok(w)) => { self.ctl.lock().unwrap().write_budget = Some(k - w); Poll::Ready(Ok(w)) } other => other };
+        }
         Pin::new(&mut self.inner).poll_write(cx, buf)
     }
     fn poll_flush(mut self: Pin<&mut Self>, cx: &mut Context<'_>) -> Poll<std::io::Result<()>> { Pin::new(&mut self.inner).poll_flush(cx) }
@@ -168,7 +175,8 @@ async fn run_script(steps: Vec<String>) -> (String, Option<String>) {
             "R" | "B" => {
                 let (mid, tokn): (i64, u64) = (f[1].parse().unwrap(), f[3].parse().unwrap());
                 let bytes = response_bytes(mid, f[2], tokn);
-                let n = if f[0] == "B" { bytes.len() / 2 } else { bytes.len() };
+                // B: a proper prefix only - 1 byte, 2 bytes, ... all but the last, chosen by the token
+                let n = if f[0] == "B" { [bytes.len() / 2, 1, 2, 3, bytes.len() - 1, bytes.len() / 3, 5][(tokn % 7) as usize].clamp(1, bytes.len() - 1) } else { bytes.len() };
                 if f[0] == "B" { partial_sent = true; }
                 if server_open {
                     if f[0] == "R" { sent_by_id.entry(mid).or_default().push(tokn); }
@@ -194,7 +202,7 @@ async fn run_script(steps: Vec<String>) -> (String, Option<String>) {
                 "eof" => { if server_open { let _ = server.shutdown().await; server_open = false; } }
                 "garbage" => { if server_open { let _ = server.write_all(&[0x30, 0x03, 0x02, 0x01]).await; let _ = server.write_all(&[0x05, 0xff, 0xff]).await; } }
                 "rderr" => { faults.lock().unwrap().read_err = true; if server_open { let _ = server.write_all(&[0x30]).await; } }
-                "wrerr" => { faults.lock().unwrap().write_err = true; }
+                "wrerr" => { if f.len() > 2 { faults.lock().unwrap().write_budget = Some(f[2].parse().unwrap()); } else { faults.lock().unwrap().write_err = true; } }
                 "raw" => { if server_open { let b = crate::text::unhex(f[2]); let mut min = true;
                     let complete = b.len() >= 2 && b[1] < 0x80 && b.len() >= 2 + b[1] as usize;
                     if complete && !matches!(ownber::read(&b, &mut min, 0), ownber::Own::Ok(..)) { raw_bad = Some(f[2].to_string()); }
@@ -340,6 +348,8 @@ pub fn gen_faults(rng: &mut Rng, n: usize, out: &mut Vec<String>) {
     'outer: for ex in &exchanges {
         for cut in 0..=ex.len() {
             let mut faults: Vec<String> = ["X:eof", "X:garbage", "X:rderr", "X:wrerr S:single:-", "B:1:e:9 X:eof", "B:1:x:9 X:rderr", "H", "S:unbind:-"].iter().map(|x| x.to_string()).collect();
+            // a write error in the middle of the next request (after 1..9 bytes), a partial response cut at a varying byte
+            faults.push(format!("X:wrerr:{} S:single:-", 1 + (count / 11) % 9)); faults.push(format!("B:2:e:{} X:eof", 10 + count % 7));
             // undecodable frames that arrive in full: a nested element cut inside its header (three per cut point, rotating through the family)
             for j in 0..3 { let fam = &raw[(count / 11 * 3 + j * 7) % raw.len()]; faults.push(format!("X:raw:{}", crate::text::hex(fam))); }
             for fault in faults {
